@@ -466,6 +466,7 @@ pub fn closure_plan(pairs: &[(u128, u128)], tier: Tier) -> crate::catalogue::Pla
             ask_bases: vec!["base", "conv"],
             two_approvers: false,
             modifies: vec![],
+            quotes: vec![],
         };
         v.push(scen(&format!("B11/p{p}/inc{inc}"), cfg, menu, vec![]));
     }
